@@ -12,6 +12,9 @@ Line protocol of the C17 model driver (table = the generated one):
   p <part> <mode>       parse(toXml(part), mode) into a fresh message                    -> `fields | unknown`
   r real                parse(toXml(pub), pub) then parseExtensions(content, sens)       -> `fields | unknown`
   r toxml               parse(toXml(pub), pub) then parse(toXml(sens), sens)             -> `fields | unknown`
+  h cycle               history: msg := parse(toXml(msg, SceAll), SceAll) into a fresh object      -> `fields | unknown`
+  h resplit             history: msg := the object of the receive path (parse public, parseExtensions content)
+  h orig                back to the message built by `reset`                                      -> `ok`
   c send                children handed to the stream by QXmppClient::sendSensitive = toXml(sendPathMode)
   c recv                client receive path: parse(wire, receiveOuterMode); e2ee extension clears the fallback markers and
                         runs parseExtensions(content(envelopeContentMode), receiveContentMode)    -> `fields | unknown`
@@ -23,6 +26,7 @@ def T : Table := Qx.Generated.SceTable.table
 
 structure DSt where
   msg : Msg
+  orig : Msg := msg        -- the message as built by `reset` (histories replace `msg`)
   deriving Inhabited
 
 def rowOf (name : String) : Option Row := T.rows.find? fun r => r.name == name
@@ -95,7 +99,7 @@ def stepLine (s : DSt) (line : String) : DSt × String :=
   match words line with
   | ["reset", spec] =>
     match parseSpec spec with
-    | .ok m => ({ msg := m }, "ok")
+    | .ok m => ({ msg := m, orig := m }, "ok")
     | .error n => (s, s!"unknown-field {n}")
   | ["w", "content"] => (s, showInv (content s.msg))
   | ["w", md] =>
@@ -110,6 +114,15 @@ def stepLine (s : DSt) (line : String) : DSt × String :=
     let s1 := parseMode T (writeMode T s.msg .pub) .pub true Msg.empty
     (s, showPSt (parseMode T (content s.msg) .sens false s1.msg))
   | ["r", "toxml"] => (s, showPSt (recoverToXml T s.msg))
+  -- histories: the current message is replaced by the object a parse produced
+  | ["h", "cycle"] =>
+    let ps := parseMode T (writeMode T s.msg .all) .all true Msg.empty
+    ({ s with msg := ofPSt T ps }, showPSt ps)
+  | ["h", "resplit"] =>
+    let s1 := parseMode T (writeMode T s.msg .pub) .pub true Msg.empty
+    let ps := parseMode T (content s.msg) .sens false s1.msg
+    ({ s with msg := ofPSt T ps }, showPSt ps)
+  | ["h", "orig"] => ({ s with msg := s.orig }, "ok")
   | ["c", "send"] => (s, showInv (writeMode T s.msg Qx.Generated.SceTable.sendPathMode))
   | ["c", "recv"] => (s, showPSt (clientReceive s.msg []))
   | "c" :: "recvinj" :: es => (s, showPSt (clientReceive s.msg (es.map parseElem)))
